@@ -811,6 +811,41 @@ pub fn check_c05(tier: &str) -> i32 {
         client_stream_job("C05", false, &req, &cstreams[i].0, &cstreams[i].1, bound, st);
     });
     rep.phase("client role", st, json!({"streams": cstreams.len()}));
+    // a transport that takes only 1 / 7 bytes per write call: replies must come out whole and in order
+    let st = parallel(short.len(), |i, st| {
+        let (label, stream) = short[i];
+        let exp = server_expect(&cfg, stream);
+        if !exp.unambiguous {
+            return;
+        }
+        for k in [1usize, 7] {
+            for lenient in [false, true] {
+                let exp = if lenient { server_expect_with(&cfg, stream, true) } else { server_expect(&cfg, stream) };
+                let mut h = ServerHarness::new(&cfg);
+                h.io.set_write_mode(WriteMode::AcceptAtMost(k));
+                h.settle();
+                let obs = h.deliver_and_observe(stream);
+                let written: Vec<u8> = obs.written.concat();
+                let ok = obs.panicked.is_none() && !obs.budget_exceeded && written == exp.output;
+                if lenient && !ok {
+                    // neither reading of the byte-count field explains the output
+                    st.violation(Violation {
+                        signature: "short-writes:stream-output".into(),
+                        summary: format!("TCP stream [{label}] over a transport taking {k} bytes per write: output {} expected {} (panic {:?})", hex(&written), hex(&exp.output), obs.panicked),
+                        replay: json!({"kind": "server-stream", "cfg": cfg, "stream": to_hex(stream), "cuts": []}),
+                    });
+                }
+                if ok {
+                    break;
+                }
+            }
+            st.evaluations += 1;
+            st.traces += 1;
+            st.class("server-short-writes");
+            st.observe(&(label.clone(), k));
+        }
+    });
+    rep.phase("server role: transport that takes 1 or 7 bytes per write call", st, json!({"streams": short.len()}));
     // every value of the header fields: all 65,536 length fields and all protocol ids, both roles.
     // The frame carries as many body bytes as a correct reader takes for that length (length - 1,
     // at most 253) followed by a valid sentinel frame, so a reader that misjudges the length either
